@@ -591,6 +591,11 @@ pub fn run_cells(session: &Session) {
     for text in crate::genr::nearmiss::cell_widening_programs() {
         cases.push(json!({"kind": "near-miss", "text": text}));
     }
+    for text in crate::genr::nearmiss::duplicate_name_programs() {
+        if text.contains("mut ") {
+            cases.push(json!({"kind": "near-miss", "text": text}));
+        }
+    }
     session.set_extra("cell_typing_matrix_cases", json!(cases.len()));
     session.run_enum(prop, cases);
 }
